@@ -3,10 +3,11 @@ from .opcheck import OperatorCheck
 
 class C02(OperatorCheck):
     id = "C02"
+    use_a4 = {"quick": True, "thorough": True}
     cfgs = ("z",)
     rule = ("E-in: same named scopes as C01 (B1 x Q2, B2 structure representatives x 89 queries, B3(4) structure "
             "representatives x type-level + literal queries); oracle: kz(AB) < kz(A!B) with kz by brute force over worlds. "
-            "distinct_nontrivial = distinct (base, query) pairs not decided by a vacuity rule with agreeing answers; "
+            "plus structure representatives of the <=4-subsets of a 12-element chain/bridge alphabet over FOUR atoms x 124 literal queries. distinct_nontrivial = distinct (base, query) pairs not decided by a vacuity rule with agreeing answers; "
             "counters report partition depths 1..3 reached.")
     assumptions = ["reference model vf/ref.py", "inputs outside the named scopes are not covered by this check"]
 
